@@ -16,6 +16,7 @@ func runC12(e *Env) error {
 	rg := e.Rng
 	r.Rule = "macro signatures with 0–4 parameters and every subset of defaults (exhaustive for arity ≤ 3), argument lists of 0…arity+2 values, bodies that print every parameter, an outer variable, a sibling macro call and assign a variable; " +
 		"each call made through five routes (local name, _self, import … as, from … import, from … import … as) and from inside a for loop, a block, an included template and another macro; " +
+		"the default of a parameter as an expression like any other: string literals built from every escape sequence × alone/leading/trailing/middle/doubled/mixed × both quoting styles, signature punctuation inside the literal, numbers, word constants, operator/filter/function/list/hash expressions × the defaulted parameter the only one, last, in the middle, all of them × spaced and tight '=' × five routes — argument omitted ≡ the default expression passed explicitly ≡ the body in place after set, and equal to the value known by construction (deterministic sweep); " +
 		"the value of a macro call handed to another macro as an argument or stored with set and printed 0–3 times, interleaved with other calls, through every route; " +
 		"the caller's names read AFTER the call (and after a second call): macro alone in its template / with siblings before, after, around × 0–2 parameters × body assigning by set, for, for key/value, do, import as, from import as, include, several × caller holding the name as data, set, loop variable, macro parameter, in a block, in an include, import alias, from-imported macro × five routes (deterministic sweep); " +
 		"oracles (implementation-only): positional binding with defaults/null (independent spec), all routes give identical output, the body's assignments are invisible to the caller; plus the Lean pipeline; " +
@@ -24,7 +25,7 @@ func runC12(e *Env) error {
 	defaultsPool := []string{"'dq'", "7", "true", "'d' ~ 'x'"}
 	defaultOut := []string{"dq", "7", "true", "dx"}
 	// further kinds of default expression, used by the sampled part: bare words and operators are expressions too
-	moreDefaults := [][2]string{{"null", ""}, {"none", ""}, {"g", "G"}, {"1 == 1", "true"}, {"g ~ '!'", "G!"}, {"false", "false"}, {"-3", "-3"}, {"[1, 2]|length", "2"}, {"g|lower", "g"}, {"not g", "false"}, {"undefinedname", ""}}
+	moreDefaults := [][2]string{{"null", ""}, {"none", ""}, {"g", "G"}, {"1 == 1", "true"}, {"g ~ '!'", "G!"}, {"false", "false"}, {"-3", "-3"}, {"[1, 2]|length", "2"}, {"g|lower", "g"}, {"not g", "false"}, {"undefinedname", ""}, {`'a\tb'`, "a\tb"}, {`"l1\nl2"`, "l1\nl2"}, {`'it\'s'`, "it's"}, {`"b\\s"`, `b\s`}, {"1.5", "1.5"}}
 	useMore := false
 	runSig := func(arity int, defMask int, argc int, placement int, mn string) error {
 		var sig []string
@@ -167,6 +168,10 @@ func runC12(e *Env) error {
 				}
 			}
 		}
+	}
+	// the default of a parameter is an expression like any other: escapes, spellings, positions (c12_defaults.go)
+	if err := runC12Defaults(e); err != nil {
+		return err
 	}
 	n := e.N(150, 20000)
 	for i := 0; i < n && !r.Full(); i++ {
